@@ -10,6 +10,10 @@ def runCase (line : String) : String :=
   match tok.head? with
   | some "range" => let (m, s) := runRange tok; s!"{m} ## {s}"
   | some "crc" => let (m, s) := runCrc tok; s!"{m} ## {s}"
+  | some "retry" => let (m, s) := runRetry tok; s!"{m} ## {s}"
+  | some "trk" => let (m, s) := runTrk tok; s!"{m} ## {s}"
+  | some "flt" => let (m, s) := runFlt tok; s!"{m} ## {s}"
+  | some "fltm" => let (m, s) := runFltm tok; s!"{m} ## {s}"
   | some "rdr" => let (m, s) := runRdr tok; s!"{m} ## {s}"
   | some "srv" => let (m, s) := runSrv tok; s!"{m} ## {s}"
   | some other => s!"unknown-suite {other} ## unknown-suite {other}"
